@@ -143,7 +143,9 @@ PROPS = {
     },
     "C09": {
         "runs": [{"profile": "c09", "n_quick": 300, "n_thorough": 20000, "exhaustive": True, "oracle": "c09"},
-                 {"profile": "c02", "n_quick": 3000, "n_thorough": 60000}],
+                 {"profile": "c02", "n_quick": 3000, "n_thorough": 60000},
+                 # the CLI's own engine wrapper and run loop: answers that change between attempts
+                 {"profile": "climulti", "kind": "cli", "n_quick": 25, "n_thorough": 400, "nontrivial": "any"}],
         "observable": "verdict + failing line + ordered trace of (session, sql) / command / sleep events",
         "exhaustive": True,
         "explanation": "exhaustive: N in 1..6 x all 2^N outcome sequences x 6 record kinds x 3 backoffs; random part: N in 7..24",
